@@ -90,6 +90,31 @@ def recase(rng, n):
     return bytes((c ^ 32) if (65 <= c <= 90 or 97 <= c <= 122) and rng.random() < 0.5 else c for c in n)
 
 
+CONSIST_POOL = ['REPORT', 'report', 'Data', 'NOTES', 'X', 'A.TXT', 'b.bas', 'Mixed.Dat', 'LONGNAME', 'AB.C', 'README',
+                'prog.bas', 'Z9', 'DATA.1']
+
+
+def gen_consist(rng):
+    """one directory, one spelling (name or mask), OPEN + FILES under that spelling, then KILL or NAME under it."""
+    files = []
+    for x in rng.sample(CONSIST_POOL, rng.choice([1, 1, 2, 3])):
+        if all(ref_norm(x.encode()) != ref_norm(y.encode()) for y in files):
+            files.append(x)
+    f = files[0].encode()
+    t, e = ref_split(f)
+    q = rng.random()
+    if b'.' not in f:
+        # extension-less file: trailing-dot and dotted-wildcard spellings
+        sp = rng.choice([f + b'.', recase(rng, f) + b'.', f + b'.*', b'*.*', t[:1] + b'*.', b'*.', f, recase(rng, f),
+                         t[:1] + b'*.*', b'?' * len(t) + b'.', b'?' * len(t) + b'.*', b'*'])
+    else:
+        sp = rng.choice([f, recase(rng, f), t + b'.*', b'*.' + e, b'*.*', t[:1] + b'*.' + e[:1] + b'*', b'*',
+                         b'?' * len(t) + b'.' + b'?' * len(e), recase(rng, t) + b'.???'])
+    if q < 0.2:
+        sp = rng.choice([b'C:', b'\\', b'c:\\', b'.\\']) + sp
+    return {'k': 'consist', 'files': files, 'sp': list(sp), 'op': rng.choice(['KILL', 'KILL', 'NAME'])}
+
+
 class C28(core.Check):
     ID = 'C28'
     GEN = ['gen_dosnames']
@@ -145,6 +170,11 @@ class C28(core.Check):
             {'k': 'hist', 'n1': list(b'prog'), 'n2': list(b'other'), 'c': [list(b'PROG'), list(b'Prog.Bas'),
                                                                             list(b'OTHER.BAS'), list(b'other.bas')],
              'tree': [], 'prog': 1},
+            {'k': 'consist', 'files': ['REPORT'], 'sp': list(b'REPORT.'), 'op': 'KILL'},
+            {'k': 'consist', 'files': ['REPORT', 'A.TXT'], 'sp': list(b'*.*'), 'op': 'KILL'},
+            {'k': 'consist', 'files': ['report'], 'sp': list(b'Report.*'), 'op': 'KILL'},
+            {'k': 'consist', 'files': ['REPORT'], 'sp': list(b'report.'), 'op': 'NAME'},
+            {'k': 'consist', 'files': ['A.TXT', 'X'], 'sp': list(b'*.'), 'op': 'KILL'},
             {'k': 'hist', 'n1': list(b'a*b'), 'n2': list(b'toolongname.x'), 'c': [list(b'A*B'), list(b'a*b'), list(b'X'),
                                                                                   list(b'x')], 'tree': [], 'prog': 0},
         ]
@@ -193,6 +223,9 @@ class C28(core.Check):
                 out.append({'k': 'lookup', 'names': names, 'dirs': dirs, 'n': list(target), 'ext': rng.randrange(2),
                             'isdir': int(rng.random() < 0.3), 'create': rng.randrange(2)})
                 hist['lookup'] += 1
+            elif r == 9 or (r == 8 and i % 20 == 8):
+                out.append(gen_consist(rng))
+                hist['consist'] = hist.get('consist', 0) + 1
             else:
                 n1, n2 = gen_name(rng, 0.85), gen_name(rng, 0.85)
                 tree = []
@@ -236,13 +269,19 @@ class C28(core.Check):
     def _hist(self, case):
         key = core.sha(case)
         if key not in self._runs:
-            hc = {'tree': case['tree'], 'steps': self.hist_steps(case)}
+            if case['k'] == 'consist':
+                sp = list(case['sp'])
+                last = ['NAME', sp, list(b'ZZNEW.TMP')] if case['op'] == 'NAME' else ['KILL', sp]
+                hc = {'tree': [[67, [x], False] for x in case['files']],
+                      'steps': [['OPENI', sp], ['FILES', sp], last]}
+            else:
+                hc = {'tree': case['tree'], 'steps': self.hist_steps(case)}
             self._runs[key] = (hc,) + tuple(base.run_history(hc))
         return self._runs[key]
 
     def impl(self, case):
         k = case['k']
-        if k == 'hist':
+        if k in ('hist', 'consist'):
             return self._hist(case)[1]
         dev = self._device()
         disk = self._disk
@@ -287,7 +326,7 @@ class C28(core.Check):
     # ---- model
     def model_term(self, case):
         k = case['k']
-        if k == 'hist':
+        if k in ('hist', 'consist'):
             hc, out, snaps, viol, details = self._hist(case)
             return base.history_term(hc, snaps)
         if k == 'fn':
@@ -363,6 +402,8 @@ class C28(core.Check):
                     if r.encode('ascii', 'replace') != ref_norm(st) or not ref_legal(ref_norm(st)):
                         return 'created name %r is not the legal upper-case 8.3 form of %r' % (r, n)
             return None
+        if k == 'consist':
+            return self.oracle_consist(case)
         # hist
         hc, o, snaps, viol, details = self._hist(case)
         if viol:
@@ -417,6 +458,55 @@ class C28(core.Check):
             return 'opening the killed file gave %r' % details[7]['status']
         return None
 
+    def oracle_consist(self, case):
+        """A file that OPEN opens / FILES shows under a spelling is found by KILL and NAME under the same spelling,
+        and the host file is gone afterwards.  Everything is read off the implementation's observed behaviour."""
+        hc, o, snaps, viol, details = self._hist(case)
+        if viol:
+            return viol[0]
+        if len(details) != 3:
+            return None
+        sp = bytes(case['sp'])
+        mask = re.split(br'[\\:]', sp)[-1]
+        if mask in (b'', b'.', b'..') or mask != mask.strip() or b'/' in sp:
+            return None      # FILES defaults an empty mask to *.*, lists . for . and ..; blanks: see design notes
+
+        def present(i):
+            return set(e[1][0] for e in details[i]['after'] if e[0] == 67 and len(e[1]) == 1 and not e[2])
+        before = present(0)
+        # host files with a legal DOS name that no other file of the directory shares
+        plain = [f for f in before if f.isascii() and ref_legal(f.encode()) and not f.startswith('.') and
+                 sum(1 for g in before if g.isascii() and ref_norm(g.encode()) == ref_norm(f.encode())) == 1]
+        opened = set()
+        if details[0]['status'] == [0, 0]:
+            ops = [x for x in details[0]['ops'] if x[0] == 5 and not x[3]]
+            if ops and ops[-1][2][0][0] == 67 and len(ops[-1][2][0][1]) == 1 and ops[-1][2][0][1][0] in before:
+                opened.add(ops[-1][2][0][1][0])
+        shown = set()
+        if details[1]['status'] == [0, 0]:
+            for f in plain:
+                t, e = ref_split(ref_norm(f.encode()))
+                entry = t.ljust(8) + (b'.' if e or not t else b' ') + e.ljust(3) + b'     '
+                if entry in details[1]['lines']:
+                    shown.add(f)
+        st = details[2]['status']
+        after = present(2)
+        if case['op'] == 'KILL':
+            targets = (opened & set(plain)) | shown
+            if targets and st != [0, 0]:
+                return ('KILL %r gave %r although %s under the same spelling' % (
+                    sp, st, ' and '.join(['OPEN opened %r' % sorted(opened)] * bool(opened) +
+                                         ['FILES showed %r' % sorted(shown)] * bool(shown))))
+            left = sorted(targets & after)
+            if left:
+                return 'KILL %r left %r on the host although OPEN/FILES found it under the same spelling' % (sp, left)
+        else:
+            if opened and st != [0, 0]:
+                return 'NAME %r AS "ZZNEW.TMP" gave %r although OPEN %r opened %r' % (sp, st, sp, sorted(opened))
+            if opened and st == [0, 0] and ((opened & after) or 'ZZNEW.TMP' not in after):
+                return 'NAME %r AS "ZZNEW.TMP": host files afterwards %r' % (sp, sorted(after))
+        return None
+
     def shrink_candidates(self, case):
         """hist cases: remove the same position from a name and from its two re-capitalised variants."""
         if case.get('k') != 'hist':
@@ -440,7 +530,7 @@ class C28(core.Check):
             return len(case['n']) > 0
         if k == 'lookup':
             return True
-        return any(d['status'] == [0, 0] for d in self._hist(case)[4])
+        return any(d['status'] == [0, 0] for d in self._hist(case)[4])  # hist, consist
 
 
 CHECK = C28
